@@ -72,6 +72,7 @@ fn drive(args: &[String]) {
     "c11" => c11::drive(vectors.expect("--vectors"), opt(args, "--vectors2"), seed, out, thorough),
     "testrun" => testrun::drive(vectors.expect("--vectors"), out),
     "project" => projpaths::drive(vectors.expect("--vectors"), out),
+    "walk" => walkrec::drive(vectors.expect("--vectors"), out),
     "strcase" => strcase::drive(vectors.expect("--vectors"), out),
     "c08" => c08::drive(vectors.expect("--vectors"), seed, out, thorough),
     "c09" => c09::drive(vectors.expect("--vectors"), seed, out, thorough),
